@@ -60,6 +60,8 @@ impl<T: Read + Seek> Iterator for PointCloudReaderRaw<'_, T> {
     fn size_hint(&self) -> (usize, Option<usize>) {
         let overall = self.records;
         let remaining = overall - self.read;
-        (remaining as usize, Some(remaining as usize))
+        // Only promise what the file can contain, the record count is not trustworthy
+        let possible = self.queue_reader.max_points().saturating_sub(self.read);
+        (remaining.min(possible) as usize, Some(remaining as usize))
     }
 }
